@@ -10,6 +10,7 @@
 #include <cstring>
 #include <exception>
 #include <mutex>
+#include <pthread.h>
 #include <string>
 #include <typeinfo>
 #include <unistd.h>
@@ -69,7 +70,12 @@ inline uint64_t seed_env() { const char *s = getenv("VERIF_SEED"); return s ? st
 inline void (*&pre_fault())() { static void (*f)() = nullptr; return f; }   // e.g. flush buffered events
 inline void fault(const char *kind, const char *what) {
     static std::atomic<int> once{0};
-    if (once.fetch_add(1) != 0) { for (;;) pause(); }                           // another thread is already reporting
+    static std::atomic<pthread_t> owner{0};
+    if (once.fetch_add(1) != 0) {
+        if (pthread_equal(owner.load(), pthread_self())) _exit(97);             // a report raised while reporting: give up cleanly
+        for (;;) pause();                                                        // another thread is already reporting
+    }
+    owner = pthread_self();
     if (pre_fault()) { void (*f)() = pre_fault(); pre_fault() = nullptr; f(); }
     Trace &t = T();
     std::string line = std::string("{\"e\":\"Fault\",\"kind\":\"") + kind + "\",\"what\":" + jstr(what ? what : "") + "}\n";
